@@ -823,9 +823,23 @@ def _unify_var(
         return unify(subst[var], t, subst)
     if isinstance(t, ExistentialTypeVar) and t in subst:
         return unify(var, subst[t], subst)
-    if var in t.unsolved_vars:
+    if _occurs(var, t, subst):
         return None
     return {var: t, **subst}
+
+
+def _occurs(var: ExistentialVar, t: Type | Const, subst: "Subst") -> bool:
+    """Occurs check that also looks through variables already solved in `subst`.
+
+    Substitutions are kept in triangular form, so `t` may mention solved variables whose
+    solutions in turn mention `var`.
+    """
+    for x in t.unsolved_vars:
+        if x == var:
+            return True
+        if x in subst and _occurs(var, subst[x], subst):
+            return True
+    return False
 
 
 def _unify_args(
